@@ -52,6 +52,11 @@ func observeEngine(in engIn) (Observed, error) {
 	doc := deepCopy(in.Doc).(map[string]any)
 	out := runEngine(doc, sql, opts...)
 	tags := []string{"outcome:" + out.Class}
+	// purity: the caller's document must be deep-equal to its state before the call (C11), whatever the outcome
+	mutated := deepDiff(anyMap(doc), anyMap(in.Doc))
+	if mutated != "" {
+		tags = append(tags, "input-mutated")
+	}
 	n := in.Repeat
 	for i := 1; i < n; i++ {
 		again := runEngine(deepCopy(in.Doc).(map[string]any), sql, opts...)
@@ -65,6 +70,10 @@ func observeEngine(in engIn) (Observed, error) {
 	obs := coqEngineObs(out)
 	if out.Class == "unstable" {
 		obs = "Panic"
+	}
+	if mutated != "" {
+		obs = "Panic" // reported as a mismatch: the input document was modified
+		out.Err = "input document modified: " + mutated
 	}
 	if out.Class == "ok" {
 		switch {
